@@ -195,6 +195,27 @@ def hand_nested3(x: fp.Real, y: fp.Real, xs: list[fp.Real]):
         m[1][0] = xs
         keep[1] = x + y
         return (a, row, keep, m[1][0][0], zs)''',
+    'hand_target_shadow': '''@fp.fpy
+def hand_target_shadow(x: fp.Real, y: fp.Real, xs: list[fp.Real]):
+    with fp.FP64:
+        acc = y
+        for x in xs:
+            acc = acc + x
+        z = y
+        for y in xs:
+            pass
+        return (acc + x * z, x, y)''',
+    'hand_countdown': '''@fp.fpy
+def hand_countdown(x: fp.Real, y: fp.Real, xs: list[fp.Real]):
+    with fp.FP64:
+        acc = x
+        for i in range(3, 0, -1):
+            acc = acc * 2 + i
+        for j in range(0, 5, 2):
+            acc = acc + j * y
+        for e in range(2, -3, -2):
+            acc = acc - e
+        return acc''',
     'hand_alias_write': '''@fp.fpy
 def hand_alias_write(x: fp.Real, y: fp.Real, xs: list[fp.Real]):
     with fp.FP64:
